@@ -61,6 +61,12 @@ def gen(ctx, tier, rng):
     L.append("rng.uniform 1 -")
     for n in (range(0, 1101) if full else list(range(0, 200)) + list(range(200, 1101, 7)) + [1023, 1024, 1025]):
         L.append("rng.drg %d %s" % (n, hexs(rb(rng, 32))))
+    # the seed kept inside the output buffer (key-erasure / ratchet form buf_deterministic(state, n, state)): every offset class, lengths across
+    # the 64 / 256 / 512-byte batch boundaries of the stream backends
+    for n in [32, 33, 63, 64, 65, 96, 127, 128, 255, 256, 257, 300, 511, 512, 513, 600, 1100]:
+        for off in sorted(set([0, 1, 16, 31, 32, 33, n // 2, n - 64, n - 33, n - 32])):
+            if 0 <= off and off + 32 <= n:
+                L.append("rng.drg.alias %d %s %d" % (n, hexs(rb(rng, 32)), off))
     for size in [(1 << 38) + d for d in (1, 2, 64, 65)] + [1 << 39, (1 << 64) - 1]:
         L.append("rng.drg_guard %d" % size)
     # generating APIs: base script, every consumed byte perturbed, bytes beyond the consumed prefix perturbed
